@@ -5,6 +5,7 @@ package pgen
 
 import (
 	"fmt"
+	"math"
 	"strings"
 
 	"buf.build/gen/go/bufbuild/protovalidate/protocolbuffers/go/buf/validate"
@@ -698,7 +699,20 @@ func (g *gen) arbitraryOptions(ft fieldType, card string, opts *descriptorpb.Fie
 	if opts == nil {
 		opts = &descriptorpb.FieldOptions{}
 	}
-	switch rapid.IntRange(0, 13).Draw(t, "optkind") {
+	switch rapid.IntRange(0, 19).Draw(t, "optkind") {
+	case 14, 15, 16, 17, 18, 19:
+		// any value of the option messages: every member is filled (or not) by
+		// reflection over the option's own descriptor, oneofs pick an arm, nothing
+		// is made to agree with the field it annotates
+		for i, ext := range []protoreflect.ExtensionType{ext_j5pb.E_Field, validate.E_Field, list_j5pb.E_Field, ext_j5pb.E_Key} {
+			if rapid.IntRange(0, 2).Draw(t, fmt.Sprintf("genericext%d", i)) != 0 {
+				continue
+			}
+			m := ext.New().Message().New()
+			g.fillAny(m, 0, fmt.Sprintf("x%d.", i))
+			proto.SetExtension(opts, ext, m.Interface())
+			g.cls("opt:generic:" + string(ext.TypeDescriptor().FullName()))
+		}
 	case 0:
 		proto.SetExtension(opts, validate.E_Field, &validate.FieldConstraints{Type: &validate.FieldConstraints_Bool{Bool: &validate.BoolRules{Const: proto.Bool(true)}}})
 		g.cls("opt:validate.bool.const")
@@ -755,6 +769,86 @@ func (g *gen) arbitraryOptions(ft fieldType, card string, opts *descriptorpb.Fie
 		g.cls("opt:validate.repeated-no-items")
 	}
 	return opts
+}
+
+var optionStrings = []string{"", "x", "^a+$", "[", "2020-01-01", "2020-13-45", "1.5", "-1", "1e400", "id62", "uuid", "name", "a.b", "😀", "01234567890123456789AB"}
+
+// fillAny sets an arbitrary subset of the members of an option message.
+func (g *gen) fillAny(m protoreflect.Message, depth int, label string) {
+	t := g.t
+	fields := m.Descriptor().Fields()
+	chosen := map[string]int{} // oneof name -> index of the arm that may be set
+	for i := 0; i < m.Descriptor().Oneofs().Len(); i++ {
+		od := m.Descriptor().Oneofs().Get(i)
+		if od.IsSynthetic() {
+			continue
+		}
+		chosen[string(od.Name())] = rapid.IntRange(-1, od.Fields().Len()-1).Draw(t, label+"arm")
+	}
+	for i := 0; i < fields.Len(); i++ {
+		fd := fields.Get(i)
+		if od := fd.ContainingOneof(); od != nil && !od.IsSynthetic() {
+			want := chosen[string(od.Name())]
+			if want < 0 || od.Fields().Get(want) != fd {
+				continue
+			}
+		} else if rapid.IntRange(0, 2).Draw(t, label+"set") != 0 {
+			continue
+		}
+		one := func() (protoreflect.Value, bool) {
+			switch fd.Kind() {
+			case protoreflect.BoolKind:
+				return protoreflect.ValueOfBool(rapid.Bool().Draw(t, label+"b")), true
+			case protoreflect.StringKind:
+				return protoreflect.ValueOfString(rapid.SampledFrom(optionStrings).Draw(t, label+"s")), true
+			case protoreflect.BytesKind:
+				return protoreflect.ValueOfBytes([]byte(rapid.SampledFrom(optionStrings).Draw(t, label+"y"))), true
+			case protoreflect.EnumKind:
+				vals := fd.Enum().Values()
+				return protoreflect.ValueOfEnum(vals.Get(rapid.IntRange(0, vals.Len()-1).Draw(t, label+"e")).Number()), true
+			case protoreflect.Int32Kind, protoreflect.Sint32Kind, protoreflect.Sfixed32Kind:
+				return protoreflect.ValueOfInt32(rapid.SampledFrom([]int32{0, 1, -1, 7, math.MaxInt32, math.MinInt32}).Draw(t, label+"i")), true
+			case protoreflect.Int64Kind, protoreflect.Sint64Kind, protoreflect.Sfixed64Kind:
+				return protoreflect.ValueOfInt64(rapid.SampledFrom([]int64{0, 1, -1, 7, math.MaxInt64, math.MinInt64}).Draw(t, label+"l")), true
+			case protoreflect.Uint32Kind, protoreflect.Fixed32Kind:
+				return protoreflect.ValueOfUint32(rapid.SampledFrom([]uint32{0, 1, 7, math.MaxUint32}).Draw(t, label+"u")), true
+			case protoreflect.Uint64Kind, protoreflect.Fixed64Kind:
+				return protoreflect.ValueOfUint64(rapid.SampledFrom([]uint64{0, 1, 7, math.MaxUint64}).Draw(t, label+"v")), true
+			case protoreflect.FloatKind:
+				return protoreflect.ValueOfFloat32(rapid.SampledFrom([]float32{0, 1, -1.5, float32(math.Inf(1)), float32(math.NaN())}).Draw(t, label+"f")), true
+			case protoreflect.DoubleKind:
+				return protoreflect.ValueOfFloat64(rapid.SampledFrom([]float64{0, 1, -1.5, math.Inf(-1), math.NaN()}).Draw(t, label+"d")), true
+			case protoreflect.MessageKind, protoreflect.GroupKind:
+				if depth >= 4 {
+					return protoreflect.Value{}, false
+				}
+				sub := m.NewField(fd)
+				if fd.IsList() {
+					sub = protoreflect.ValueOfMessage(sub.List().NewElement().Message())
+				} else if fd.IsMap() {
+					return protoreflect.Value{}, false
+				}
+				g.fillAny(sub.Message(), depth+1, label+string(fd.Name())+".")
+				return sub, true
+			}
+			return protoreflect.Value{}, false
+		}
+		switch {
+		case fd.IsMap():
+			continue
+		case fd.IsList():
+			l := m.Mutable(fd).List()
+			for n := rapid.IntRange(0, 2).Draw(t, label+"n"); n > 0; n-- {
+				if v, ok := one(); ok {
+					l.Append(v)
+				}
+			}
+		default:
+			if v, ok := one(); ok {
+				m.Set(fd, v)
+			}
+		}
+	}
 }
 
 // Link turns file protos into linked descriptors. Dependencies are resolved from
@@ -980,4 +1074,3 @@ func CrossFile(t *rapid.T, first *descriptorpb.FileDescriptorProto, pkg string) 
 	fd.MessageType = []*descriptorpb.DescriptorProto{msg}
 	return fd
 }
-
